@@ -211,8 +211,11 @@ M_C14_CapTrigger == (Kind = "fleet" /\ ~AnyDue(st) /\ NInside(st) = Cap) =>
 
 ---------------------------------------------------------------------------
 (* Leg B export: the state graph, by TLC, as JSON lines *)
+Compact(s) == [putQ |-> s.putQ, putRes |-> s.putRes, getQ |-> s.getQ, getRes |-> s.getRes,
+               resEv |-> s.resEv, resIt |-> s.resIt, items |-> s.items, ready |-> s.ready,
+               timers |-> s.timers, act |-> s.act, trips |-> s.trips]
 SuccRow(s, c) == LET d == Do(s, c) n2 == Canon(d.s)
-                 IN [c |-> c, r |-> d.r, wf |-> WellFormed(s, c), same |-> (n2 = s), nxt |-> IF n2 = s THEN <<>> ELSE <<n2>>]
+                 IN [c |-> c, r |-> d.r, wf |-> WellFormed(s, c), nxt |-> IF n2 = s THEN <<>> ELSE <<Compact(n2)>>]
 ExportGraph ==
-  PrintT(ToJson([st |-> st, succ |-> {SuccRow(st, c) : c \in Alphabet(st)}]))
+  PrintT(ToJson([st |-> Compact(st), succ |-> {SuccRow(st, c) : c \in Alphabet(st)}]))
 =============================================================================
